@@ -33,7 +33,7 @@ CONFIGS = {
     "grpc(mem)": ["optuna.storages._grpc.client", "optuna.study.study"],
 }
 
-PREFIX_OPS = ["enq", "ask", "tell", "add_done", "add_wait"]
+PREFIX_OPS = ["enq", "ask", "tell", "add_done", "add_wait", "peek"]
 
 
 def fixed_value(k: int) -> float:
@@ -93,6 +93,9 @@ class World:
             if not self.asked:
                 return False
             s.tell(self.asked.pop(), 1.0)
+        elif op == "peek":
+            # the WAITING-filtered read has a side effect in the in-memory storage (scan cursor)
+            s.get_trials(deepcopy=False, states=(TrialState.WAITING,))
         elif op == "add_done":
             s.add_trial(optuna.trial.create_trial(params={"x": 0.5}, distributions={"x": optuna.distributions.FloatDistribution(0, 1)}, value=0.0))
         return True
@@ -121,14 +124,15 @@ def prefixes(depth: int) -> list[tuple]:
                         ok = False
                         break
                     running -= 1
-            if ok and 1 <= q <= 2 and p[-1] != "tell":
+            if ok and 1 <= q <= 2 and p[-1] != "tell" and p[0] != "peek":
                 out.append(p)
     return out
 
 
 # worker programs: list of steps; "ask" = ask + suggest, "enq" = enqueue a new trial
 PROGRAMS = {
-    2: [(("ask",), ("ask",)), (("ask", "ask"), ("ask",)), (("enq", "ask"), ("ask",)), (("ask",), ("enq",))],
+    2: [(("ask",), ("ask",)), (("ask", "ask"), ("ask",)), (("enq", "ask"), ("ask",)), (("ask",), ("enq",)),
+        (("peek", "ask"), ("ask",))],
     3: [(("ask",), ("ask",), ("ask",)), (("ask",), ("ask",), ("enq", "ask"))],
 }
 
@@ -162,7 +166,9 @@ class Run:
                         sched.point("op")
                         inv = sched.now()
                         try:
-                            if step == "ask":
+                            if step == "peek":
+                                studies[i].get_trials(deepcopy=False, states=(TrialState.WAITING,))
+                            elif step == "ask":
                                 t = studies[i].ask()
                                 v = t.suggest_float("x", 0, 1)
                                 got.append((i, t.number, t._trial_id, v, dict(t.user_attrs), inv))
@@ -283,7 +289,7 @@ def run(tier: str, replay: str | None = None) -> int:
         pres = prefixes(depth)
         progs2 = PROGRAMS[2]
         if cfg != "mem" and tier == "quick":
-            pres = [p for p in pres if len(p) == 1] + [("enq", "enq"), ("enq", "add_done"), ("ask", "enq"), ("enq", "ask", "enq")]
+            pres = [p for p in pres if len(p) == 1] + [("enq", "enq"), ("enq", "add_done"), ("ask", "enq"), ("enq", "peek"), ("enq", "ask", "enq")]
             progs2 = [PROGRAMS[2][0], PROGRAMS[2][2]]
         for p in pres:
             for progs in progs2:
